@@ -296,6 +296,7 @@ class C04Checker(Checker):
 
     def __init__(self, sc):
         super().__init__()
+        self.sc = sc
         self.has_local = any(lv["engine"] == "Local" for lv in sc["levels"])
         self.prev_best = None
         self.changes_after_first = 0
@@ -309,6 +310,9 @@ class C04Checker(Checker):
         self.n_seen = len(run.trace.calls)
 
     def on_boundary(self, run, k):
+        every = int(self.sc.get("observe_every", 1))
+        if every > 1 and (k % every) != int(self.sc.get("observe_offset", 0)) % every:
+            return  # an observer that does not look at every boundary (memoised accessors must still be right)
         tree = run.tree
         problem = run.level_problems[0]
         tb = tree.best_individual
@@ -340,7 +344,7 @@ class C04Checker(Checker):
         if self.prev_best is not None:
             if better(problem, self.prev_best, tb.fitness):
                 self.fail("best-worsened", f"best fitness went from {self.prev_best!r} to {tb.fitness!r} at metaepoch {tree.metaepoch_count}")
-            if tb.fitness != self.prev_best and k >= 2:
+            if tb.fitness != self.prev_best and k >= 2:  # (k counts boundaries)
                 self.changes_after_first += 1
         self.prev_best = tb.fitness
         if not self.has_local:
@@ -397,8 +401,11 @@ class C05Checker(Checker):
             self.fail("no-final-head-check", "run() did not return from a loop-head consultation that was true")
         g = self.sc["gsc"]
         cap = int(self.sc["cap"])
-        if g["kind"] == "MetaepochLimit" and final_m != min(int(g["limit"]), cap):
-            self.fail("metaepoch-limit-not-exact", f"MetaepochLimit({g['limit']}) (cap {cap}) but {final_m} metaepochs were performed")
+        if g["kind"] == "MetaepochLimit":
+            n = int(g["limit"])
+            # exactly n - unless the harness' own cap (metaepochs or tree size) ended the run first
+            if (e0.real and final_m != n) or final_m > n:
+                self.fail("metaepoch-limit-not-exact", f"MetaepochLimit({n}) (cap {cap}) but {final_m} metaepochs were performed")
         if g["kind"] == "DontRun" and (final_m != 0 or len(tree.all_demes) != 1):
             self.fail("dontrun-ran", f"DontRun but metaepoch_count={final_m}, demes={len(tree.all_demes)}")
         late_rounds = [r for r in tr.rounds if r["gsc_idx"] > i0]
@@ -928,7 +935,7 @@ class C18Checker(Checker):
             return
         for did, c in cen.items():
             if c[CEN_ACTIVE] and c[CEN_LEVEL] < self.H - 1:
-                asleep = did not in rnd["seeds"]
+                asleep = not rnd["seeds"].get(did)  # "took a sprout from it": a non-empty list of seeds
                 was = self.model.get(did, False)
                 if asleep and not was:
                     self.fell_asleep += 1
@@ -1118,10 +1125,27 @@ class C20Checker(Checker):
         self.n_boundaries = 0
 
     # -- report vs attributes ----------------------------------------------------------------
+    @staticmethod
+    def _true_best(problem, inds):
+        """brute force over the histories (the accessors under test are not trusted as the oracle)"""
+        b = None
+        for i in inds:
+            if b is None or better(problem, i.fitness, b.fitness):
+                b = i
+        return b
+
     def _check_reports(self, run):
         tree = run.tree
         demes = {d.id: d for _, d in tree.all_demes}
-        best = tree.best_individual
+        problem0 = run.level_problems[0]
+        true_deme_best = {d.id: self._true_best(problem0, [i for m in d._history for g in m for i in g]) for d in demes.values()}
+        best = self._true_best(problem0, [b for b in true_deme_best.values() if b is not None])
+        for d in demes.values():
+            tb, rb = true_deme_best[d.id], d.best_individual
+            if tb is not None and (rb is None or rb.fitness != tb.fitness):
+                self.fail(f"accessor/deme-best-stale/{type(d).__name__}", f"metaepoch {tree.metaepoch_count}: deme {d.id}.best_individual reports fitness {None if rb is None else rb.fitness!r} but its history holds {tb.fitness!r}")
+        if tree.best_individual.fitness != best.fitness:
+            self.fail("accessor/tree-best-stale", f"metaepoch {tree.metaepoch_count}: tree.best_individual reports {tree.best_individual.fitness!r} but the histories hold {best.fitness!r}")
         text = tree.summary()
         head, _, rest = text.partition("\n\nLevel 1.")
         hl = head.split("\n")
@@ -1169,10 +1193,7 @@ class C20Checker(Checker):
                 self.fail("summary/level-evaluations", f"level {lvl + 1}: summary says {field(lines, 'Number of evaluations: ')!r} evaluations, its demes report {n_ev}")
             if field(lines, "Number of demes: ") != str(len(lvl_demes)):
                 self.fail("summary/level-demes", f"level {lvl + 1}: summary says {field(lines, 'Number of demes: ')!r} demes, tree has {len(lvl_demes)}")
-            lb = with_best[0].best_individual
-            for d in with_best[1:]:
-                if better(problem, d.best_individual.fitness, lb.fitness):
-                    lb = d.best_individual
+            lb = self._true_best(problem, [true_deme_best[d.id] for d in with_best if true_deme_best[d.id] is not None])
             if field(lines, "Best fitness: ") != f"{lb.fitness:.4e}":
                 self.fail("summary/level-best", f"level {lvl + 1}: summary says best fitness {field(lines, 'Best fitness: ')!r}, best over its demes is {lb.fitness:.4e}")
         # deme lines
@@ -1200,14 +1221,15 @@ class C20Checker(Checker):
                 self.fail("tree/deme-type", f"tree() shows {did} as {m['type']}, it is a {type(d).__name__}")
             if int(m["evals"]) != d.n_evaluations:
                 self.fail("tree/deme-evaluations", f"tree() shows {m['evals']} evaluations for deme {did}, it reports {d.n_evaluations}")
-            if m["fit"] != f"{d.best_individual.fitness:.2e}":
-                self.fail("tree/deme-fitness", f"tree() shows fitness {m['fit']} for deme {did}, its best is {d.best_individual.fitness:.2e}")
+            tb = true_deme_best[did]
+            if m["fit"] != f"{tb.fitness:.2e}":
+                self.fail("tree/deme-fitness", f"tree() shows fitness {m['fit']} for deme {did}, its best is {tb.fitness:.2e}")
             star = m["star"].strip() == "***"
-            want = d.best_individual.fitness == best.fitness
+            want = tb.fitness == best.fitness
             if star != want:
                 self.fail(
                     "tree/best-marker/" + ("missing" if want else "spurious") + ("/zero-best" if best.fitness == 0 else ""),
-                    f"deme {did}: best fitness {d.best_individual.fitness!r}, global best {best.fitness!r}, *** marker {'present' if star else 'absent'}",
+                    f"deme {did}: best fitness {tb.fitness!r}, global best {best.fitness!r}, *** marker {'present' if star else 'absent'}",
                 )
         self.displayed_max = max(self.displayed_max, len(shown))
         if len(demes) > len(expect):
@@ -1273,6 +1295,10 @@ class C20Checker(Checker):
     def on_boundary(self, run, k):
         self.n_boundaries += 1
         if not self.look:
+            return
+        # intermittent observers exist: look only at every n-th boundary (n drawn with the scenario)
+        every = int(self.sc.get("observe_every", 1))
+        if every > 1 and (k % every) != int(self.sc.get("observe_offset", 0)) % every:
             return
         self._check_reports(run)
         self._check_purity(run)
